@@ -140,6 +140,25 @@ def calendar_grid(rng, tier):
             out.append((P("tz"), bytes([1]) + _vi(len(nb)) + nb))
             if pad % 8 == 0:
                 out.append((P("dt_tz"), _vu(2024) + bytes([2, 29, 1, 2, 3]) + _vu(5) + bytes([1]) + _vi(len(nb)) + nb))
+    # invalid UTF-8 behind a long valid prefix with a multi-byte character at every offset, in every string-carrying
+    # codec (error paths that quote or cut the text decoded so far; the cut may fall inside a character)
+    for total in (66, 70, 130, 140, 258):
+        for ch in ("\u00e9", "\u20ac", "\U0001F600"):
+            for end in range(max(1, total - 70), total + 1):
+                cb = ch.encode()
+                if end < len(cb):
+                    continue
+                good = ("a" * (end - len(cb)) + ch + "z" * (total - end)).encode()
+                for tail in (b"\xff", b"\xc3", b"\xe2\x82", b"\xed\xa0\x80"):
+                    nb = good + tail
+                    if (end + total) % 3 == 0:
+                        out.append((P("str"), _vi(len(nb)) + nb))
+                    elif (end + total) % 3 == 1:
+                        out.append((P("dstr"), _vi(len(nb)) + nb))
+                    else:
+                        out.append((P("tz"), bytes([1]) + _vi(len(nb)) + nb))
+                    if end % 16 == 0:
+                        out.append((P("bigdec"), _vi(len(nb)) + nb))
     for b in range(256):
         out.append((P("weekday"), bytes([b])))
         out.append((P("month"), bytes([b])))
